@@ -1137,8 +1137,45 @@ def rule_r15(prog, res):
                             'leaves the transport ([1, 0, "f", []] or '
                             '[2, 0, "f"] for MessagePackRpc)' % (
                                 kind, f.qualname, dep))
+    # %-formatting with a value the peer sent: a msgpack array arrives as a
+    # tuple, which % takes for the argument list
+    m = 0
+    for c in prog.all_classes():
+        if not c.module.relpath.startswith('spyne/protocol/'):
+            continue
+        f = c.methods.get('decompose_incoming_envelope')
+        if f is None or f.cls is not c:
+            continue
+        tainted = _doc_tainted(f)
+        for x in walk_no_defs(f.node):
+            if not (isinstance(x, ast.BinOp) and isinstance(x.op, ast.Mod) and
+                    isinstance(x.left, ast.Constant) and isinstance(
+                        x.left.value, str)):
+                continue
+            m += 1
+            bad = isinstance(x.right, ast.Name) and x.right.id in tainted
+            where = '%s:%d' % (f.module.relpath, x.lineno)
+            res.ob('R15', where, '%s formats %s' % (f.qualname,
+                                                    unparse(x)[:60]),
+                   'VIOLATED' if bad else 'ok')
+            if bad:
+                res.finding('R15', '%s|format|%s' % (f.qualname, x.right.id),
+                            where, '%s formats a message with "%% %s", a '
+                            'value the peer sent: when it is a tuple (a '
+                            'msgpack array) it is taken for the argument '
+                            'list and TypeError leaves the transport' % (
+                                f.qualname, x.right.id))
     res.floor('R15', 'asserts and non-Fault raises in envelope decomposition',
               n, 0)
+
+
+def rule_r16(prog, res):
+    from . import c04
+    from ..report import Result
+    res.share('R16', 'xsi:type never turns a declared Array into a lazily '
+              'read Iterable: items would be parsed, and refused, after the '
+              'user function has started (C04-R11)', 'C04', c04.rule_r11,
+              prog, Result)
 
 
 def run(prog, res, tier):
@@ -1156,6 +1193,7 @@ def run(prog, res, tier):
     res.run_rule(rule_r13, prog, res)
     res.run_rule(rule_r14, prog, res)
     res.run_rule(rule_r15, prog, res)
+    res.run_rule(rule_r16, prog, res)
     res.run_rule(rule_r4, prog, res, tier)
     res.run_rule(rule_r5, prog, res)
     res.run_rule(rule_r6, prog, res, tier)
@@ -1374,11 +1412,35 @@ MUTANTS = [
            'enum_base_from_bytes'),
     Mutant('duration-overflow', 'R3', 'fire', _I,
            in_func('InProtocolBase.duration_from_unicode',
-                   "        except OverflowError:\n"
+                   "        except (ValueError, OverflowError):\n"
                    "            raise ValidationError(string)",
-                   "        except KeyError:\n"
+                   "        except ValueError:\n"
                    "            raise ValidationError(string)"),
-           'duration_from_unicode'),
+           'OverflowError'),
+    Mutant('duration-digit-limit', 'R3', 'fire', _I,
+           in_func('InProtocolBase.duration_from_unicode',
+                   "        except (ValueError, OverflowError):\n"
+                   "            raise ValidationError(string)",
+                   "        except OverflowError:\n"
+                   "            raise ValidationError(string)"),
+           'ValueError'),
+    Mutant('duration-negated-after-the-guard', 'R3', 'fire', _I,
+           in_func('InProtocolBase.duration_from_unicode',
+                   "            if duration['sign'] == \"-\":\n"
+                   "                delta *= -1\n\n"
+                   "        except (ValueError, OverflowError):\n"
+                   "            raise ValidationError(string)\n",
+                   "        except (ValueError, OverflowError):\n"
+                   "            raise ValidationError(string)\n\n"
+                   "        if duration['sign'] == \"-\":\n"
+                   "            delta *= -1\n"), 'OverflowError'),
+    Mutant('msgpackrpc-type-as-format-args', 'R15', 'fire', _M,
+           in_func('MessagePackRpc.decompose_incoming_envelope',
+                   "raise MessagePackDecodeError(\"Unknown message type %r\"\n"
+                   "                                                          "
+                   "        % (msgtype,))",
+                   "raise MessagePackDecodeError(\"Unknown message type %r\" "
+                   "% msgtype)"), 'format'),
     Mutant('raw-decode-in-reader', 'R3', 'fire', _I,
            in_func('InProtocolBase.time_from_bytes',
                    "string = self._bytes_to_unicode(string)",
